@@ -972,9 +972,15 @@ static void gen_expr(Node *node) {
     cmp_zero(node->cond->ty);
     println("  je .L.else.%d", c);
     gen_expr(node->then);
+    // If the other operand is void, so is the result, and this
+    // operand's value is dropped.
+    if (node->ty->kind == TY_VOID)
+      discard(node->then->ty);
     println("  jmp .L.end.%d", c);
     println(".L.else.%d:", c);
     gen_expr(node->els);
+    if (node->ty->kind == TY_VOID)
+      discard(node->els->ty);
     println(".L.end.%d:", c);
     return;
   }
